@@ -93,7 +93,7 @@ Proof.
   - destruct (sess st s); exact H.
   - destruct (sess st s) as [t|]; [|exact H]. unfold tm_commit. cbn. destruct (tm_state st t) as [[]|]; exact H.
   - destruct (sess st s) as [t|]; [|exact H]. unfold tm_abort. cbn. destruct (tm_state st t) as [[]|]; exact H.
-  - exact H.
+  - destruct (sess st s) as [t|]; [|exact H]. unfold tm_abort. cbn. destruct (tm_state st t) as [[]|]; exact H.
   - destruct (ctx st s) as [e t]. pose proof (lidx_create_node_with_props st labels props e t H) as H1.
     destruct (create_node_with_props st labels props e t). exact H1.
   - destruct (ctx st s) as [e t]. cbn [fst].
@@ -235,7 +235,7 @@ Proof.
     apply filter_ext. intros x. rewrite (o_echain _ _ H), (o_store _ _ H). reflexivity.
   - rewrite (oeq_nodes_by_label a b l Hl H). reflexivity.
   - rewrite (o_props _ _ H). reflexivity.
-  - rewrite (oeq_scan a b _ 0 SYSTEM Hi Hl H). reflexivity.
+  - rewrite (o_epoch _ _ H), (oeq_scan a b _ (tm_epoch a) SYSTEM Hi Hl H). reflexivity.
 Qed.
 
 (** ** the state inside a transaction of the fragment *)
@@ -477,3 +477,20 @@ Proof.
   destruct (tm_state st t) as [[]|] eqn:E; try (exfalso; apply Hna; reflexivity); cbn;
     unfold upd; rewrite Z.eqb_refl; repeat split; reflexivity.
 Qed.
+
+(** ** dropping a session (3eb02b5, repair of C02-K4): its open transaction is rolled back *)
+Lemma drop_rolls_back_l : forall ops s t, sess (final ops) s = Some t ->
+  let st' := fst (step (final ops) (DropSession s)) in
+  st' = fst (step (final ops) (Rollback s))
+  /\ snd (step (final ops) (DropSession s)) = OUnit
+  /\ tm_state st' t = Some Aborted
+  /\ (forall n v, In v (n_chain st' n) \/ In v (e_chain st' n) -> v_by v <> t)
+  /\ rdf st' = rdf (final ops) /\ rdf_buf st' t = [] /\ sess st' s = None.
+Proof.
+  intros ops s t Hs. cbn zeta. rewrite drop_state, drop_out.
+  destruct (rollback_ok_l (final ops) s t (inv_final ops) Hs) as [_ [H2 [H3 [H4 [H5 [H6 H7]]]]]].
+  repeat split; try assumption.
+  intros n v [H|H]; [apply (H3 n v H)|apply (H4 n v H)].
+Qed.
+Lemma drop_idle_l : forall st s, sess st s = None -> step st (DropSession s) = (st, OUnit).
+Proof. intros st s H. cbn [step]. rewrite H. reflexivity. Qed.
